@@ -113,6 +113,9 @@ func (s *sys) Ops() []string {
 		for _, a := range s.b.Pools {
 			for _, b := range s.b.Pools {
 				out = append(out, fmt.Sprintf("init %d %d", a, b))
+				if a+b > 0 && (a == 0 || b == 0 || a == b) {
+					out = append(out, fmt.Sprintf("init %d %d enabled", a, b)) // vesting already enabled in genesis: the very first block releases
+				}
 			}
 		}
 		return out
@@ -129,10 +132,19 @@ func (s *sys) params() rvtypes.Params { return s.c.App.RVestingKeeper.GetParams(
 func (s *sys) balances() map[string]sdk.Coins {
 	out := map[string]sdk.Coins{}
 	s.c.App.BankKeeper.IterateAllBalances(s.c.ReadCtx(), func(addr sdk.AccAddress, coin sdk.Coin) bool {
-		out[addr.String()] = out[addr.String()].Add(coin)
+		out[fold(addr.String())] = out[fold(addr.String())].Add(coin)
 		return false
 	})
 	return out
+}
+
+// fold: the fee collector is swept into the distribution account by the distribution module's BeginBlock (from height 2
+// on); where the released coins sit between the two is not the vesting module's business — they are one account here.
+func fold(addr string) string {
+	if addr == distAddr {
+		return collAddr
+	}
+	return addr
 }
 
 func (s *sys) supply() sdk.Coins {
@@ -209,9 +221,7 @@ func fmtDiff(d map[string]string) string {
 		case poolAddr:
 			name = "pool"
 		case collAddr:
-			name = "collector"
-		case distAddr:
-			name = "distribution"
+			name = "collector+distribution"
 		}
 		fmt.Fprintf(&sb, "%s:%s;", name, d[k])
 	}
@@ -238,6 +248,7 @@ func (s *sys) Apply(op string) (obs, class string, viols []bfs.Viol) {
 	if f[0] == "init" {
 		var a, b int64
 		fmt.Sscanf(f[1], "%d %d", &a, &b)
+		genesisEnabled := strings.HasSuffix(f[1], "enabled")
 		funder := world.NewAccount("funder")
 		init := sdk.NewCoins()
 		if a > 0 {
@@ -247,11 +258,13 @@ func (s *sys) Apply(op string) (obs, class string, viols []bfs.Viol) {
 			init = init.Add(sdk.NewInt64Coin(dB, b))
 		}
 		s.c = world.NewChain("teleport_9000-10", s.now, world.Options{
-			Accounts:   []string{"funder", "u1"},
-			ExtraCoins: map[string]sdk.Coins{"funder": sdk.NewCoins(sdk.NewInt64Coin(dA, 9), sdk.NewInt64Coin(dB, 9)), "u1": sdk.NewCoins(sdk.NewInt64Coin(dA, 7))},
+			Accounts:        []string{"funder", "u1"},
+			NoGenesisCommit: true, // the first block of the search is height 1
+			ExtraCoins:      map[string]sdk.Coins{"funder": sdk.NewCoins(sdk.NewInt64Coin(dA, 9), sdk.NewInt64Coin(dB, 9)), "u1": sdk.NewCoins(sdk.NewInt64Coin(dA, 7))},
 			GenesisMod: func(cdc codec.Codec, gs map[string]json.RawMessage) {
 				g := rvtypes.DefaultGenesisState()
 				g.Params.PerBlockReward = sdk.NewCoins(sdk.NewInt64Coin(dA, 1))
+				g.Params.EnableVesting = genesisEnabled
 				if !init.IsZero() {
 					g.From = funder.Acc.String()
 					g.InitReward = init
@@ -262,6 +275,18 @@ func (s *sys) Apply(op string) (obs, class string, viols []bfs.Viol) {
 		s.inited = true
 		s.mp = rvtypes.DefaultGenesisState().Params
 		s.mp.PerBlockReward = sdk.NewCoins(sdk.NewInt64Coin(dA, 1))
+		s.mp.EnableVesting = genesisEnabled
+		// block 1 (the chain was not committed after InitChain, as on a real network): with vesting enabled in genesis the
+		// very first block already releases min(reward, pool)
+		s.now = s.now.Add(world.BlockStep)
+		s.c.Begin(s.now)
+		s.c.End()
+		move, _ := expected(s.mp, init)
+		wantPool := init.Sub(move)
+		gotPool := s.c.App.BankKeeper.GetAllBalances(s.c.ReadCtx(), authtypes.NewModuleAddress(rvtypes.ModuleName))
+		if !gotPool.IsEqual(wantPool) {
+			return "init", "init", []bfs.Viol{{Sig: "first-block-moves-wrong-amount", Detail: fmt.Sprintf("genesis %s with pool %s: after block 1 the pool holds %s, the statement requires %s", s.mp.String(), init, gotPool, wantPool)}}
+		}
 		if got := s.params(); got.String() != s.mp.String() {
 			return "init", "init", []bfs.Viol{{Sig: "genesis-parameters-not-in-force", Detail: fmt.Sprintf("genesis set %s, the module reads %s", s.mp.String(), got.String())}}
 		}
@@ -284,7 +309,7 @@ func (s *sys) Apply(op string) (obs, class string, viols []bfs.Viol) {
 		if pan == nil {
 			after := map[string]sdk.Coins{}
 			s.c.App.BankKeeper.IterateAllBalances(ctx, func(addr sdk.AccAddress, coin sdk.Coin) bool {
-				after[addr.String()] = after[addr.String()].Add(coin)
+				after[fold(addr.String())] = after[fold(addr.String())].Add(coin)
 				return false
 			})
 			got := fmtDiff(diff(before, after))
@@ -349,8 +374,8 @@ func (s *sys) Apply(op string) (obs, class string, viols []bfs.Viol) {
 		}
 	}
 	if !ambiguous {
-		if want := wantDiff(move, distAddr); got != want {
-			viols = append(viols, bfs.Viol{Sig: "block-moves-wrong-amount", Detail: fmt.Sprintf("params=%s pool=%s op=%s: block moved %q, statement requires %q (collector is swept to distribution in the same BeginBlock)", p.String(), pool, op, got, want)})
+		if want := wantDiff(move, collAddr); got != want {
+			viols = append(viols, bfs.Viol{Sig: "block-moves-wrong-amount", Detail: fmt.Sprintf("params=%s pool=%s op=%s: block moved %q, statement requires %q (fee collector and distribution account taken together)", p.String(), pool, op, got, want)})
 		}
 		if p.EnableVesting {
 			if move.IsZero() {
@@ -367,7 +392,7 @@ func (s *sys) Apply(op string) (obs, class string, viols []bfs.Viol) {
 		// only the unambiguous clauses: nothing beyond the pool leaves it, nobody else changes
 		d := diff(before, after)
 		for k := range d {
-			if k != poolAddr && k != distAddr {
+			if k != poolAddr && k != collAddr {
 				viols = append(viols, bfs.Viol{Sig: "block-touches-other-account", Detail: fmt.Sprintf("params=%s: %s", p.String(), got)})
 			}
 		}
